@@ -30,6 +30,7 @@
   reason-bound handlers is the pass as it was). What f7d6401 lost: `namesake_children_leak_witness` (finding C03-N7).
 -/
 import Kopf.Lemmas.C03_Fail
+import Kopf.Lemmas.C03_Relist
 namespace Kopf.C03
 open Kopf Kopf.C02
 
@@ -1475,5 +1476,118 @@ example : (causeOf (restart (applyEdits stateA [5, 6, 7]) 100)).reason = .update
     causeOf (restart (applyEdits stateA [5, 6, 7]) 100) = causeOf (restart { stateA with ess := 7 } 100) ∧
     closings envA 6 (restart (applyEdits stateA [5, 6, 7]) 100) = 1 := by
   refine ⟨by decide, by decide, by decide⟩
+
+/-! ### events that arrive while `apply` sleeps: the stream re-lists the object AS IT IS (seed C03f)
+
+Every delivery timing of watch events is in the property's quantifier; one event needs no write at all: the listing
+with which every re-established watch stream begins (Model/C03_Relist). -/
+
+/-- A re-listing that falls into the sleep of a turn LEAVES AN EVENT (the code as it is): the sleep is interrupted
+    without the touch (no request but the constant part of the patch), the records, the last-handled state, the
+    essence and the deletion mark are what they were, and the listed event is pending at `t`: the next turn is an
+    ordinary one, which re-arms the sleep for what is left of the delay. -/
+theorem relist_in_sleep_leaves_event (env : Env) (s : State E) (t : Tick) (h : inSleep env s t = true) :
+    (loopStepR env t s).pending = true ∧ (loopStepR env t s).now = t ∧
+    (loopStepR env t s).writes = s.writes + cp env ∧ (loopStepR env t s).base = s.base ∧
+    (∀ i ∈ ids env, (loopStepR env t s).P i = s.P i) ∧ (loopStepR env t s).ess = s.ess ∧
+    (loopStepR env t s).marked = s.marked ∧ (loopStepR env t s).gone = s.gone := by
+  obtain ⟨_, hc⟩ := inSleep_cond env s t h
+  obtain ⟨hP, hb⟩ := unchanged_of_not_changed env s hc
+  unfold loopStepR
+  rw [workerTurn_inSleep false env s t h]
+  exact ⟨rfl, rfl, rfl, hb, hP, rfl, rfl, rfl⟩
+
+/-- CONVERGENCE ACROSS A RE-LISTING (full): whatever the state, whenever the re-listed object interrupts the sleep
+    of a turn, if the handlers' scripts have only finitely many failures the loop still reaches quiescence, and the
+    object, if it still exists then, carries no progress record, is not written to any more and — seen by the framework
+    and not in deletion — has its last-handled state equal to its essence. -/
+theorem relist_converges (env : Env) (wf : WF env) (hfin : FinitelyFailing env) (s : State E) (t : Tick)
+    (hu : Uniform env s) (hg : s.gone = false) (h : inSleep env s t = true) :
+    ∃ m, (iter env m (loopStepR env t s)).pending = false ∧
+      ((iter env m (loopStepR env t s)).gone = false →
+        (env.prematch = true → ∀ i ∈ env.owned, (iter env m (loopStepR env t s)).P i = none) ∧
+        (env.prematch = true → s.marked = false → (iter env m (loopStepR env t s)).base = some s.ess) ∧
+        (loopStep env { iter env m (loopStepR env t s) with pending := true }).writes
+          = (iter env m (loopStepR env t s)).writes + cp env ∧
+        (loopStep env { iter env m (loopStepR env t s) with pending := true }).pending = false) := by
+  have heq : loopStepR env t s = { interrupted env s t with pending := true } := by
+    unfold loopStepR; rw [workerTurn_inSleep false env s t h]; rfl
+  have hu' : Uniform env (loopStepR env t s) := by rw [heq]; exact interrupted_uniform env wf s t hu
+  have hp' : (loopStepR env t s).pending = true := by rw [heq]
+  have hg' : (loopStepR env t s).gone = false := by rw [heq]; exact hg
+  obtain ⟨m, hq⟩ := terminates_finitely_failing env wf hfin _ hu'
+  refine ⟨m, hq, ?_⟩
+  intro hgq
+  obtain ⟨h1, h2, h3, h4, _⟩ := final_state env m _ hp' hg' hq hgq
+  have he : (loopStepR env t s).ess = s.ess := by rw [heq]; rfl
+  have hm : (loopStepR env t s).marked = s.marked := by rw [heq]; rfl
+  rw [he, hm] at h2
+  exact ⟨h1, fun a b => (h2 a b).1, h3, h4⟩
+
+/-- The NEGATION for a worker that drops a listed event repeating the version it has processed last (seed C03f), for
+    EVERY state: whenever the re-listed object interrupts the sleep of a turn, the loop is stuck for good — nothing is
+    pending, no turn follows, no touch was sent — on exactly what the object carried: every record the sleeping
+    handlers were waiting on, the last-handled state as it was. -/
+theorem relist_skipped_stuck (env : Env) (s : State E) (t : Tick) (h : inSleep env s t = true) :
+    (loopStepRSkip env t s).pending = false ∧ (∀ n, iter env n (loopStepRSkip env t s) = loopStepRSkip env t s) ∧
+    (loopStepRSkip env t s).writes = s.writes + cp env ∧ (loopStepRSkip env t s).base = s.base ∧
+    (∀ i ∈ ids env, (loopStepRSkip env t s).P i = s.P i) := by
+  obtain ⟨_, hc⟩ := inSleep_cond env s t h
+  obtain ⟨hP, hb⟩ := unchanged_of_not_changed env s hc
+  have heq : loopStepRSkip env t s = { interrupted env s t with pending := false } := by
+    unfold loopStepRSkip; rw [workerTurn_inSleep true env s t h]; rfl
+  rw [heq]
+  exact ⟨rfl, fun n => iter_quiescent env n _ rfl, rfl, hb, hP⟩
+
+/-- The witness (seed C03f; corpus/C03/relist_same_version_during_retry_sleep.json and its neighbours, replayed on
+    the real operator): the update `0 → 1` is outstanding, `u0` failed once and sleeps till tick 512; at tick 300 the
+    stream re-lists the object as it is. The code as it is: the sleep is interrupted, the listed event is processed
+    (nothing due yet), the rest of the delay is slept, the touch at 512 brings the event at 513, `u0` runs and closes
+    the cycle: four turns, two writes, last-handled = essence, no record. The worker that drops the listed event:
+    quiescent for ever with `u0`'s unfinished record on the object and last-handled ≠ essence, nothing written. -/
+theorem relist_skipped_witness :
+    WF envI ∧ AllFinal envI ∧ Uniform envI (stateW (some 0) 1) ∧ sleepsTill envI (stateW (some 0) 1) = some 512 ∧
+    inSleep envI (stateW (some 0) 1) 300 = true ∧
+    (loopStepRSkip envI 300 (stateW (some 0) 1)).pending = false ∧
+    (∀ n, iter envI n (loopStepRSkip envI 300 (stateW (some 0) 1)) = loopStepRSkip envI 300 (stateW (some 0) 1)) ∧
+    (loopStepRSkip envI 300 (stateW (some 0) 1)).P "u0" = some retryingRec ∧
+    (loopStepRSkip envI 300 (stateW (some 0) 1)).base ≠ some (stateW (some 0) 1).ess ∧
+    (loopStepRSkip envI 300 (stateW (some 0) 1)).writes = 0 ∧
+    -- the code as it is
+    (loopStepR envI 300 (stateW (some 0) 1)).pending = true ∧ (loopStepR envI 300 (stateW (some 0) 1)).now = 300 ∧
+    (pass envI (loopStepR envI 300 (stateW (some 0) 1))).invoked = [] ∧
+    (iter envI 1 (loopStepR envI 300 (stateW (some 0) 1))).now = 513 ∧
+    (pass envI (iter envI 1 (loopStepR envI 300 (stateW (some 0) 1)))).invoked = [("u0", 1)] ∧
+    (iter envI 3 (loopStepR envI 300 (stateW (some 0) 1))).pending = false ∧
+    (iter envI 3 (loopStepR envI 300 (stateW (some 0) 1))).base = some 1 ∧
+    (iter envI 3 (loopStepR envI 300 (stateW (some 0) 1))).P "u0" = none ∧
+    (iter envI 3 (loopStepR envI 300 (stateW (some 0) 1))).writes = 2 := by
+  refine ⟨⟨?_, by decide, by decide, by decide⟩, fun _ _ => rfl, ⟨"update", ?_⟩, by decide, by decide, by decide, ?_,
+    by decide, by decide, by decide, by decide, by decide, by decide, by decide, by decide, by decide, by decide,
+    by decide, by decide⟩
+  · intro c i hi
+    simp only [envI] at hi ⊢
+    split at hi
+    · exact hi
+    · simp at hi
+  · intro i _ r hP
+    simp only [stateW] at hP
+    split at hP
+    · cases hP; rfl
+    · cases hP
+  · intro n
+    exact iter_quiescent envI n _ (by decide)
+
+-- non-vacuity of `relist_in_sleep_leaves_event` / `relist_converges` / `relist_skipped_stuck`: the hypotheses hold of
+-- the witness' state for every moment of its sleep's first stretch
+example : Uniform envI (stateW (some 0) 1) ∧ (stateW (some 0) 1).gone = false ∧
+    inSleep envI (stateW (some 0) 1) 256 = true ∧ inSleep envI (stateW (some 0) 1) 511 = true ∧
+    inSleep envI (stateW (some 0) 1) 512 = false := by
+  refine ⟨⟨"update", ?_⟩, rfl, by decide, by decide, by decide⟩
+  intro i _ r hP
+  simp only [stateW] at hP
+  split at hP
+  · cases hP; rfl
+  · cases hP
 
 end Kopf.C03
